@@ -103,6 +103,9 @@ pub struct Build {
     pub churn: Vec<Churn>,
     /// how each entry's key is materialised (indexed like `entries`)
     pub keys: Vec<KeyPres>,
+    /// the table is built on the run thread but queried from another thread (it is Send + Sync)
+    #[serde(default)]
+    pub query_elsewhere: bool,
 }
 
 #[derive(Serialize, Deserialize, Clone, Debug, PartialEq, Eq)]
@@ -203,7 +206,7 @@ pub fn generate(seed: u64) -> Config {
     // logical map: choose amino symbols and a preimage count for each
     let mut entries: Vec<(String, String)> = Vec::new();
     let mut used: BTreeSet<String> = BTreeSet::new();
-    let target_total = *rng.pick(&[0usize, 1, 2, 3, 3, 4, 4, 5, 6, 8, 12, 16, 24, 48]);
+    let target_total = *rng.pick(&[0usize, 1, 2, 3, 3, 4, 4, 5, 6, 8, 12, 16, 24, 48, 61, 64, 100, 200]);
     let mut aminos: Vec<u8> = AMINO_LETTERS.to_vec();
     rng.shuffle(&mut aminos);
     let space: usize = if mixed {
@@ -211,6 +214,21 @@ pub fn generate(seed: u64) -> Config {
     } else {
         alpha.len().pow(base_len as u32)
     };
+    if target_total > 48 {
+        // a large table (a complete genetic code has 64 codons): codons of one length from a space
+        // that is big enough, each assigned to one of k amino symbols; then a few singletons
+        let len = (1..=max_len).find(|l| alpha.len().pow(*l as u32) >= target_total).unwrap_or(max_len);
+        let total = alpha.len().pow(len as u32).min(target_total);
+        let k = rng.range(1, 21);
+        while entries.len() < total {
+            let c = rand_codon(&mut rng, alpha, len);
+            if used.insert(c.clone()) {
+                let a = aminos[rng.below(k)];
+                entries.push((c, (a as char).to_string()));
+            }
+        }
+        aminos.clear();
+    }
     'outer: for a in aminos {
         if entries.len() >= target_total {
             break;
@@ -272,7 +290,8 @@ pub fn generate(seed: u64) -> Config {
             }
         }
         let keys = (0..n).map(|_| gen_key_pres(&mut rng, per_word)).collect();
-        builds.push(Build { entropy: rng.next_u64(), ctor, order, churn, keys });
+        let query_elsewhere = rng.chance(1, 8);
+        builds.push(Build { entropy: rng.next_u64(), ctor, order, churn, keys, query_elsewhere });
     }
 
     // queries
@@ -507,7 +526,7 @@ pub struct BuildOutcome {
 }
 
 /// Runs on the run's fresh thread: build the physical map, hand it to `from_map`, answer queries.
-fn build_and_query<A: Codec>(cfg: &Config, b: &Build) -> BuildOutcome {
+fn build_and_query<A: Codec + Send + Sync>(cfg: &Config, b: &Build) -> BuildOutcome {
     let alpha = alphabet(&cfg.codec);
     let amino = |s: &str| Amino::try_from_ascii(s.as_bytes()[0]).expect("harness: amino letter");
     let key = |i: usize| make_key::<A>(&cfg.entries[i].0, &b.keys[i], alpha);
@@ -609,19 +628,30 @@ fn build_and_query<A: Codec>(cfg: &Config, b: &Build) -> BuildOutcome {
         }
     };
 
-    let mut answers = Vec::with_capacity(cfg.queries.len());
-    for q in &cfg.queries {
-        let got = catch_unwind(AssertUnwindSafe(|| match q {
-            Query::Amino { codon, pres, off, tail, fill } => {
-                ask::<A, _>(codon, pres, *off, *tail, *fill, alpha, |s| classify(&table.try_to_amino(s)))
-            }
-            Query::Codon { amino: a } => classify_codon(&table.try_to_codon(amino(a))),
-        }));
-        answers.push(match got {
-            Ok(s) => s,
-            Err(p) => panic_text(p),
-        });
-    }
+    let answer_all = |table: &CodonTable<A, Amino>| -> Vec<String> {
+        let mut answers = Vec::with_capacity(cfg.queries.len());
+        for q in &cfg.queries {
+            let got = catch_unwind(AssertUnwindSafe(|| match q {
+                Query::Amino { codon, pres, off, tail, fill } => {
+                    ask::<A, _>(codon, pres, *off, *tail, *fill, alpha, |s| classify(&table.try_to_amino(s)))
+                }
+                Query::Codon { amino: a } => {
+                    classify_codon(&table.try_to_codon(Amino::try_from_ascii(a.as_bytes()[0]).expect("harness: amino letter")))
+                }
+            }));
+            answers.push(match got {
+                Ok(s) => s,
+                Err(p) => panic_text(p),
+            });
+        }
+        answers
+    };
+    let answers = if b.query_elsewhere {
+        // one thread at a time: the run thread blocks in the scope until the query thread is done
+        std::thread::scope(|sc| sc.spawn(|| answer_all(&table)).join().expect("harness: query thread"))
+    } else {
+        answer_all(&table)
+    };
     BuildOutcome { anomalies: anomalies.into_inner(), observed_order, answers, capacity }
 }
 
@@ -649,6 +679,7 @@ pub struct RunStats {
     pub churn_kinds: BTreeMap<String, usize>,
     pub key_kinds: BTreeMap<String, usize>,
     pub getrandom_calls: u64,
+    pub cross_thread_query_builds: usize,
     pub logical_hash: String,
     pub nontrivial: bool,
     pub perm_patterns: Vec<String>,
@@ -760,6 +791,9 @@ pub fn run(cfg: &Config) -> RunResult {
             for c in &b.churn {
                 *stats.churn_kinds.entry(c.name().to_string()).or_insert(0) += 1;
             }
+        }
+        if b.query_elsewhere {
+            stats.cross_thread_query_builds += 1;
         }
         for k in &b.keys {
             *stats.key_kinds.entry(format!("{:?}", k.kind)).or_insert(0) += 1;
@@ -896,6 +930,7 @@ pub struct BatchOut {
     pub nonkey_queries: u64,
     pub reverse_queries: u64,
     pub getrandom_calls: u64,
+    pub cross_thread_query_builds: u64,
     pub entropy_values: u64,
     pub violating_runs: u64,
     pub violations: Vec<serde_json::Value>,
@@ -934,6 +969,7 @@ pub fn batch(verif_seed: u64, from: u64, to: u64, hashes_path: Option<&str>) -> 
         out.nonkey_queries += (r.stats.nonkey_queries * r.stats.builds) as u64;
         out.reverse_queries += (r.stats.reverse_queries * r.stats.builds) as u64;
         out.getrandom_calls += r.stats.getrandom_calls;
+        out.cross_thread_query_builds += r.stats.cross_thread_query_builds as u64;
         out.entropy_values += r.stats.builds as u64;
         for k in 0..4 {
             out.aminos_by_preimages[k] += r.stats.aminos_by_preimages[k] as u64;
